@@ -20,7 +20,7 @@
 From Coq Require Import ZArith List.
 From JV Require Import Base.Bytes Base.Utf8 Json.Json Json.JsonSer Json.JsonParse.
 From JV Require Model.Params Model.Builder Model.Wire Model.Registry Proofs.WireFacts.
-From JV Require Import Model.MacroApi Proofs.MacroApiFacts Gen.MacroApiGen.
+From JV Require Import Model.MacroApi Proofs.MacroApiFacts Gen.MacroApiGen Proofs.MacroApiFamilyFacts.
 Import ListNotations.
 
 (* what the stub encodes, the generated server closure decodes to the same tuple: both param kinds, every parameter list *)
@@ -98,6 +98,15 @@ Theorem C17_null_payload_refuted : exists (ps : list (param jty)) (v : json) (t 
 Proof. exact null_payload_refuted. Qed.
 Print Assumptions C17_null_payload_refuted.
 
+(* the compiled family, by name: Gen.MacroApiGen.family_keys lists per API, trait function and parameter the member key the
+   generated CLIENT writes and the keys the generated SERVER accepts, each derived by the translator with the rule it reads
+   from its own proc-macro source (render_client.rs / render_server.rs).  For every function of every API: the client's key is
+   the model's p_name, the server's keys are the model's keys_of, the client's key is one of the server's keys, and no key is
+   accepted for two parameters (except in the labelled negative example collide(a_b, aB)) *)
+Theorem C17_by_name_keys_agree : Forall2 (fun (a : japi) (ks : list (list (bytes * list bytes))) => Forall2 (fun (ps : list (param jty)) (kps : list (bytes * list bytes)) => Forall2 (fun (p : param jty) (kp : bytes * list bytes) => fst kp = p_name p /\ snd kp = keys_of p /\ In (fst kp) (snd kp)) ps kps /\ (map p_name ps = [b#"a_b"; b#"aB"] \/ keys_disjoint (map snd kps))) (item_params a) ks) family family_keys.
+Proof. exact by_name_keys_agree. Qed.
+Print Assumptions C17_by_name_keys_agree.
+
 (* ---------- non-vacuity: the compiled family (coq/Gen/MacroApiGen.v, read from harness/src/bin/macroapi.rs) ---------- *)
 
 (* every API of the family satisfies the name hypothesis *)
@@ -112,7 +121,7 @@ Qed.
 
 (* every method of the family satisfies the parameter-key hypothesis, except the labelled negative example *)
 Example C17_family_params_distinct :
-  forallb (fun a : japi => forallb (fun m => params_distinct (m_params m)) (a_methods a) && forallb (fun s => params_distinct (s_params s)) (a_subs a)) [api_Plain; api_Ns; api_Dot; api_Glue] = true /\
+  forallb (fun a : japi => forallb (fun m => params_distinct (m_params m)) (a_methods a) && forallb (fun s => params_distinct (s_params s)) (a_subs a)) [api_Plain; api_Ns; api_Dot; api_Glue; api_Raw] = true /\
   map (fun m : method jty => params_distinct (m_params m)) (a_methods api_Neg) = [false; true].
 Proof. vm_compute. split; reflexivity. Qed.
 
@@ -158,4 +167,26 @@ Example C17_witness_raw :
   co_args (run_raw api_Plain b#"opt2" (Some b#"[""s"", null , null ]") (BReturn JNull) []) = Some [Some (JStr b#"s"); None; None] /\
   co_client (run_raw api_Plain b#"one_u8" (Some b#"[256]") (BReturn JNull) []) = VErr (err_invalid_params (-32602)%Z) /\
   co_handler (run_raw api_Plain b#"one_u8" (Some b#"[256]") (BReturn JNull) []) = None.
+Proof. vm_compute. repeat split; reflexivity. Qed.
+
+(* raw identifiers and underscore / digit names: the text of the identifier is the key, `r#` included; heck splits at `#` *)
+Example C17_witness_raw_identifiers :
+  nth_error family_keys 5 = Some
+    [ [(b#"r#type", [b#"r#type"; b#"r_type"; b#"rType"]); (b#"r#ref", [b#"r#ref"; b#"r_ref"; b#"rRef"])];
+      [(b#"r#type", [b#"r#type"; b#"r_type"; b#"rType"]); (b#"r#ref", [b#"r#ref"; b#"r_ref"; b#"rRef"])];
+      [(b#"type", [b#"type"; b#"type"; b#"type"]); (b#"r#match", [b#"r#match"; b#"r_match"; b#"rMatch"])];
+      [(b#"r#move", [b#"r#move"; b#"r_move"; b#"rMove"]); (b#"r#loop", [b#"r#loop"; b#"r_loop"; b#"rLoop"])];
+      [(b#"_lead", [b#"_lead"; b#"lead"; b#"lead"]); (b#"trail_", [b#"trail_"; b#"trail"; b#"trail"]);
+       (b#"mid1dle", [b#"mid1dle"; b#"mid1dle"; b#"mid1dle"]); (b#"r#type_", [b#"r#type_"; b#"r_type"; b#"rType"])];
+      [(b#"r#fn", [b#"r#fn"; b#"r_fn"; b#"rFn"]); (b#"r#in", [b#"r#in"; b#"r_in"; b#"rIn"])];
+      [(b#"r#type", [b#"r#type"; b#"r_type"; b#"rType"]); (b#"r#ref", [b#"r#ref"; b#"r_ref"; b#"rRef"])];
+      [(b#"r#type", [b#"r#type"; b#"r_type"; b#"rType"]); (b#"r#while", [b#"r#while"; b#"r_while"; b#"rWhile"])] ] /\
+  run_stub api_Raw false 0 [JNum (NPos 7); JStr b#"q"] (BReturn (JArr [JNum (NPos 7); JStr b#"q"])) =
+    CaseOut (Some (b#"raw_mapRaw", Some b#"{""r#type"":7,""r#ref"":""q""}"))
+            (Some (Registry.Bind 0 Registry.KAsync))
+            (Some [Some (JNum (NPos 7)); Some (JStr b#"q")])
+            (VOk (JArr [JNum (NPos 7); JStr b#"q"])) /\
+  co_args (run_raw api_Raw b#"raw_mapRaw" (Some b#"{""rRef"":""q"",""r_type"":7}") (BReturn JNull) []) = Some [Some (JNum (NPos 7)); Some (JStr b#"q")] /\
+  co_client (run_raw api_Raw b#"raw_mapRaw" (Some b#"{""type"":7,""ref"":""q""}") (BReturn JNull) []) = VErr (err_invalid_params (-32602)%Z) /\
+  co_args (run_raw api_Raw b#"raw_mapRawOpt" (Some b#"{""r#move"":1}") (BReturn JNull) []) = Some [Some (JNum (NPos 1)); None].
 Proof. vm_compute. repeat split; reflexivity. Qed.
